@@ -717,7 +717,7 @@ func (e *Executor) Pending(ctx context.Context) ([]File, error) {
 			return nil, err
 		}
 	// In case we applied a checkpoint, but it was only partially applied.
-	case revs[len(revs)-1].Applied != revs[len(revs)-1].Total && len(all) > 0:
+	case revs[len(revs)-1].partial() && len(all) > 0:
 		if idx, found := slices.BinarySearchFunc(all, revs[len(revs)-1], func(f File, r *Revision) int {
 			return strings.Compare(f.Version(), r.Version)
 		}); found {
@@ -735,7 +735,7 @@ func (e *Executor) Pending(ctx context.Context) ([]File, error) {
 	case len(migrations) > 0:
 		var (
 			last      = revs[len(revs)-1]
-			partially = last.Applied != last.Total
+			partially = last.partial()
 			fn        = func(f File) bool { return f.Version() <= last.Version }
 		)
 		if partially {
@@ -756,7 +756,7 @@ func (e *Executor) Pending(ctx context.Context) ([]File, error) {
 			return migrations, nil
 		}
 		// If this file was not partially applied, take the next one.
-		if last.Applied == last.Total {
+		if !partially {
 			idx++
 		}
 		pending = migrations[idx:]
@@ -773,7 +773,7 @@ func (e *Executor) Pending(ctx context.Context) ([]File, error) {
 				// was not applied either, and should be resumed.
 				if i, found := slices.BinarySearchFunc(revs, f, func(r *Revision, f File) int {
 					return strings.Compare(r.Version, f.Version())
-				}); !found || revs[i].Applied != revs[i].Total {
+				}); !found || revs[i].partial() {
 					skipped = append(skipped, f)
 				}
 			}
@@ -1184,6 +1184,12 @@ func (NopRevisionReadWriter) DeleteRevision(context.Context, string) error {
 }
 
 var _ RevisionReadWriter = (*NopRevisionReadWriter)(nil)
+
+// partial reports if the revision is partially applied and
+// was not manually resolved (e.g., by 'atlas migrate set').
+func (r *Revision) partial() bool {
+	return r.Applied != r.Total && !r.Type.Has(RevisionTypeResolved)
+}
 
 // done computes and sets the ExecutionTime.
 func (r *Revision) done() {
